@@ -217,6 +217,9 @@ pub struct MImpl {
     /// associated type values (name, value over impl vars; may contain projections encoded as
     /// App("@proj:Trait:Name", [self, params..]))
     pub assoc_vals: Vec<(String, MTy)>,
+    /// extra where-clause text outside the model's vocabulary (e.g. an associated-type binding on a closed type) that
+    /// the generator has established to be *true* in the program; printed, ignored by the reference semantics
+    pub extra_where: Option<String>,
 }
 
 #[derive(Clone, Debug, Default)]
@@ -224,6 +227,9 @@ pub struct MProgram {
     pub structs: Vec<MStruct>,
     pub traits: Vec<MTrait>,
     pub impls: Vec<MImpl>,
+    /// items that are printed but are no part of the model: impls whose (closed) where-clauses the generator has
+    /// established to be *false*, so they can never apply
+    pub extra_items: Vec<String>,
 }
 
 impl MProgram {
@@ -472,7 +478,11 @@ pub fn trait_text(tr: &MTrait) -> String {
 
 pub fn impl_text(im: &MImpl) -> String {
     let targs = if im.head.args.len() > 1 { format!("<{}>", im.head.args[1..].iter().map(|t| TyDisp(t).to_string()).collect::<Vec<_>>().join(", ")) } else { String::new() };
-    let wh = if im.wheres.is_empty() { String::new() } else { format!(" where {}", im.wheres.iter().map(pred_text).collect::<Vec<_>>().join(", ")) };
+    let mut wcs: Vec<String> = im.wheres.iter().map(pred_text).collect();
+    if let Some(x) = &im.extra_where {
+        wcs.push(x.clone());
+    }
+    let wh = if wcs.is_empty() { String::new() } else { format!(" where {}", wcs.join(", ")) };
     let vals: Vec<String> = im.assoc_vals.iter().map(|(n, v)| format!("type {} = {};", n, TyDisp(v))).collect();
     format!(
         "{}impl{} {}{}{} for {}{} {{ {} }}\n",
@@ -498,6 +508,9 @@ pub fn program_text(p: &MProgram) -> String {
     for im in &p.impls {
         s.push_str(&impl_text(im));
     }
+    for x in &p.extra_items {
+        s.push_str(x);
+    }
     s
 }
 
@@ -507,6 +520,7 @@ pub fn program_items(p: &MProgram) -> Vec<String> {
     v.extend(p.structs.iter().map(struct_text));
     v.extend(p.traits.iter().map(trait_text));
     v.extend(p.impls.iter().map(impl_text));
+    v.extend(p.extra_items.iter().cloned());
     v
 }
 
@@ -515,7 +529,11 @@ pub fn goal_text(g: &MGoal) -> String {
         MGoal::Pred(p) => pred_text(p),
         MGoal::Eq(a, b) => format!("{} = {}", TyDisp(a), TyDisp(b)),
         MGoal::And(gs) => gs.iter().map(goal_text).collect::<Vec<_>>().join(", "),
-        MGoal::Not(g) => format!("not {{ {} }}", goal_text(g)),
+        // `forall<T> { not { G } }` (chalk refutes `exists<T> { G }`) is modelled as Not(Exists(.., u32::MAX, G))
+        MGoal::Not(g) => match &**g {
+            MGoal::Exists(vs, l, inner) if *l == u32::MAX => format!("forall<{}> {{ not {{ {} }} }}", vs.iter().map(|v| var_name(*v)).collect::<Vec<_>>().join(", "), goal_text(inner)),
+            _ => format!("not {{ {} }}", goal_text(g)),
+        },
         MGoal::Forall(u, n, g) => format!("forall<{}> {{ {} }}", (0..*n).map(|i| ph_name(*u, i)).collect::<Vec<_>>().join(", "), goal_text(g)),
         MGoal::Exists(vs, _, g) => format!("exists<{}> {{ {} }}", vs.iter().map(|v| var_name(*v)).collect::<Vec<_>>().join(", "), goal_text(g)),
         MGoal::If(h, g) => format!("if ({}) {{ {} }}", h.iter().map(pred_text).collect::<Vec<_>>().join("; "), goal_text(g)),
@@ -545,7 +563,8 @@ pub fn collect_exists(g: &MGoal, out: &mut Vec<(usize, u32)>) {
             }
             collect_exists(g, out)
         }
-        MGoal::Forall(_, _, g) | MGoal::Not(g) | MGoal::If(_, g) => collect_exists(g, out),
+        // (binders under a negation are not unknowns of the query)
+        MGoal::Forall(_, _, g) | MGoal::If(_, g) => collect_exists(g, out),
         MGoal::And(gs) => gs.iter().for_each(|g| collect_exists(g, out)),
         _ => {}
     }
@@ -694,6 +713,18 @@ impl<'a> Sem<'a> {
 
     fn in_bounds(&self, p: &MPred) -> bool {
         p.args.iter().all(|t| t.size() <= self.atom_max)
+    }
+
+    /// No positive impl head of `p`'s trait unifies with `p` (the variables of `p` and of the head renamed apart).
+    pub fn unifies_with_no_head(&self, p: &MPred) -> bool {
+        for im in self.prog.impls.iter().filter(|im| im.positive && im.head.tr == p.tr && im.head.args.len() == p.args.len()) {
+            let head = im.head.subst(&|i| MTy::Var(100_000 + i));
+            let mut sub = BTreeMap::new();
+            if head.args.iter().zip(&p.args).all(|(a, b)| unify_ty(a, b, &mut sub)) {
+                return false;
+            }
+        }
+        true
     }
 
     pub fn is_coinductive(&self, p: &MPred) -> bool {
@@ -969,7 +1000,16 @@ impl<'a> Sem<'a> {
                         break;
                     }
                 }
-                // no witness within the bound: a larger witness may exist
+                // no witness within the bound: a larger witness may exist — unless the goal is a single atom that unifies
+                // with the head of no positive impl at all (and nothing is assumed), which refutes it for every size
+                if hyps.is_empty() {
+                    if let MGoal::Pred(p) = &**g {
+                        let p = p.subst(&s);
+                        if !self.is_coinductive(&p) && self.builtin.is_none() && !self.prog.tr(&p.tr).auto && self.unifies_with_no_head(&p) {
+                            return Tri::False;
+                        }
+                    }
+                }
                 Tri::Unknown
             }
             MGoal::If(h, g) => {
